@@ -370,7 +370,8 @@ theorem csText_escText (ls : List Bytes) (hc : ∀ l ∈ ls, CanonLine l) (tail 
     rw [csText]
     have hg : getLine (csEndText ++ LF :: tail) = (csEndText, tail) :=
       getLine_append _ _ csEndText_noLF (by decide)
-    simp only [escText, List.map_nil, List.flatten_nil, List.nil_append, hg]
+    have hne : csEndText ++ LF :: tail ≠ [] := by simp
+    simp only [escText, List.map_nil, List.flatten_nil, List.nil_append, hne, ↓reduceDIte, hg]
     have : (csEndText.isEmpty && tail.isEmpty) = false := by
       have : csEndText.isEmpty = false := by decide
       simp [this]
@@ -398,10 +399,11 @@ theorem csText_escText (ls : List Bytes) (hc : ∀ l ∈ ls, CanonLine l) (tail 
       | nil => simp [escOut] at hb
       | cons a t =>
         have : (escOut (a :: t)).getLast? = (a :: t).getLast? := by
-          simp only [escOut]
-          rw [List.getLast?_append_of_ne_nil _ (by simp)]
+          simp [escOut, List.getLast?_append]
         rw [this] at hb
         exact hlast b hb
+    have hne2 : (escOut l ++ LF :: (escText ls ++ csEndText ++ LF :: tail)) ≠ [] := by simp
+    simp only [hne2, ↓reduceDIte]
     rw [getLine_append _ _ hnoLF hlast']
     simp only
     have hrest_ne : (escText ls ++ csEndText ++ LF :: tail) ≠ [] := by simp
@@ -427,8 +429,7 @@ theorem csText_escText (ls : List Bytes) (hc : ∀ l ∈ ls, CanonLine l) (tail 
               simpa [csEndText, str] using this
             exact ha this
           simpa using hne
-    have hne2 : (escOut l ++ LF :: (escText ls ++ csEndText ++ LF :: tail)) ≠ [] := by simp
-    simp only [hre, Bool.and_false, Bool.false_eq_true, ↓reduceIte, hnot_end, hne2, ↓reduceDIte, ih]
+    simp only [hre, Bool.and_false, Bool.false_eq_true, ↓reduceIte, hnot_end, ih]
     -- un-escaping and trimming give the line back
     have hun : (if hasPrefix (escOut l) [45, 32] = true then List.drop 2 (escOut l) else escOut l) = l := by
       cases l with
